@@ -37,8 +37,10 @@ mod __verif_date_back {
         let f = fmt.as_bytes();
         let fmt_ok = f.len() == 11 && f[0] == b'%' && f[1] == b'Y' && f[2] == b'-' && f[3] == b'%' && f[4] == b'm' && f[5] == b'-'
             && f[6] == b'%' && f[7] == b'd' && f[8] == b' ' && f[9] == b'%' && f[10] == b'T';
-        assert!(fmt_ok && b.len() == 19 && b[4] == b'-' && b[7] == b'-' && b[10] == b' ' && b[13] == b':' && b[16] == b':');
-        let dg = |i: usize| -> u32 { assert!(b[i] >= b'0' && b[i] <= b'9'); (b[i] - b'0') as u32 };
+        // anything else is NOT a violation but "this stub does not model the call": tools/run_kani.py maps the tag to undecided
+        assert!(fmt_ok && b.len() == 19 && b[4] == b'-' && b[7] == b'-' && b[10] == b' ' && b[13] == b':' && b[16] == b':',
+                "VERIF-UNMODELLED: parse_from_str called with a format or literal shape the stub does not model");
+        let dg = |i: usize| -> u32 { assert!(b[i] >= b'0' && b[i] <= b'9', "VERIF-UNMODELLED: non-digit in a numeric field"); (b[i] - b'0') as u32 };
         let y = (dg(0) * 1000 + dg(1) * 100 + dg(2) * 10 + dg(3)) as i32;
         let (mo, d) = (dg(5) * 10 + dg(6), dg(8) * 10 + dg(9));
         let (h, mi, se) = (dg(11) * 10 + dg(12), dg(14) * 10 + dg(15), dg(17) * 10 + dg(18));
